@@ -103,7 +103,7 @@ func (c *Ctx) localExpansionsWith(info *types.Info, body *ast.BlockStmt, base *c
 		}
 		return true
 	})
-	o := &canonOpts{subst: map[types.Object]string{}}
+	o := &canonOpts{subst: map[types.Object]string{}, merged: true}
 	if base != nil {
 		for k, v := range base.subst {
 			o.subst[k] = v
@@ -122,6 +122,11 @@ func (c *Ctx) localExpansionsWith(info *types.Info, body *ast.BlockStmt, base *c
 					if sel, ok := unparen(x.Fun).(*ast.SelectorExpr); ok {
 						return pure(sel.X)
 					}
+				}
+			}
+			if id, ok := unparen(x.Fun).(*ast.Ident); ok && len(x.Args) == 1 {
+				if b, ok := info.Uses[id].(*types.Builtin); ok && (b.Name() == "len" || b.Name() == "cap") {
+					return pure(x.Args[0])
 				}
 			}
 			return false
